@@ -133,10 +133,28 @@ def build_kmodel(force=False):
     subprocess.run(["rm", "-rf", ext])
     os.makedirs(ext)
     exdir = os.path.join(COQ, "theories", "Extract")
+    # All Extract/*.v files are merged into ONE `Separate Extraction` (union of the required modules and of the roots):
+    # separate runs would overwrite each other's partial copies of the shared modules (Str, Datatypes, ...).
+    reqs, roots = [], []
     for ev in sorted(f for f in os.listdir(exdir) if f.endswith(".v")):
-        rc, out = run_cmd(["coqc", "-Q", os.path.join(COQ, "theories"), "KV", os.path.join(exdir, ev)], cwd=ext, timeout=900)
-        if rc:
-            return False, "extraction failed (%s):\n%s" % (ev, out)
+        text = strip_coq_comments(open(os.path.join(exdir, ev)).read())
+        for m in re.finditer(r"From\s+KV\s+Require\s+Import\s+(.*?)\.(?=\s)", text, re.S):
+            reqs += [x for x in m.group(1).split() if x not in reqs]
+        for m in re.finditer(r"Separate\s+Extraction\s+(.*?)\.(?=\s|$)", text, re.S):
+            roots += [x for x in m.group(1).split() if x not in roots]
+    allv = os.path.join(ext, "ExtractAll.v")
+    with open(allv, "w") as f:
+        f.write("From Coq Require Import Extraction ExtrOcamlBasic ExtrOcamlNativeString.\n"
+                "From KV Require Import %s.\nExtraction Blacklist String List Bool.\nSeparate Extraction\n  %s.\n"
+                % (" ".join(reqs), "\n  ".join(roots)))
+    rc, out = run_cmd(["coqc", "-Q", os.path.join(COQ, "theories"), "KV", allv], cwd=ext, timeout=900)
+    for junk in ("ExtractAll.vo", "ExtractAll.glob", "ExtractAll.vok", "ExtractAll.vos", ".ExtractAll.aux"):
+        try:
+            os.remove(os.path.join(ext, junk))
+        except OSError:
+            pass
+    if rc:
+        return False, "extraction failed:\n%s" % out
     odir = os.path.join(VERIF, "ocaml")
     cmds = sorted(f for f in os.listdir(odir) if f.startswith("cmds_") and f.endswith(".ml"))
     for f in ["kcore.ml", "kmain.ml"] + cmds:
